@@ -17,10 +17,11 @@ from the content-addressed cache and cost nothing; the first check of a run pays
 
 ### 10.2 Seeded changes (which check catches which change)
 
-51 changes to /repo were produced by independent sub-agents that saw only the text of one property
+59 changes to /repo were produced (the table lists the ones kept) by independent sub-agents that saw only the text of one property
 and a scratch worktree (wave 1: 18 agents x 2, before the checks were tuned against anything; wave 2:
 8 agents x 2 with a list of wave-1 ideas not to repeat, produced *after* the checks had been
-strengthened against wave 1 – it measures generalisation). Each was confirmed by me in a scratch
+strengthened against wave 1 – it measures generalisation; wave 3: 8 agents x 1 in the last
+session, same rules, after wave 2's lessons – ids X<property>-1). Each was confirmed by me in a scratch
 worktree (`tools/confirm_seed.sh`: patch applies, builds, the 43 baseline tests pass twice with it,
 its demonstration passes without and fails with it; one wave-2 candidate, a weakened memory
 ordering, did not reproduce here and was dropped). Each kept change is in `seeded/<id>/`
@@ -51,6 +52,8 @@ explicit environment step. What remains out of reach: changes that need more int
 stated bounds (W05-2: 1024 lost races), changes that alter the signature of a function every
 harness of the property stubs (C04-2: exit 2, undecided), weakened memory orderings that stay
 above the minimum the trace contracts pin, and anything in the std `LocalNode::with`.
+
+WAVE3TEXT
 <!-- /TABLES -->""" % (cost, seeds, totals)
 p = os.path.join(HERE, "DESIGN.md")
 s = open(p).read()
